@@ -19,6 +19,7 @@ func init() {
 			ruleKeyedStores(r)
 			ruleFreshMaps(r)
 			ruleGrouperSelection(r)
+			ruleSampleLabelSet(r)
 		},
 	})
 }
